@@ -1,57 +1,1 @@
-/-
-  C13 — reject files are valid patches that carry exactly the failed changes: writing any hunk in unified or
-  context form and reading it back never changes the change it denotes.
--/
-import PatchModel.Spec.Diff
-namespace PatchModel.C13
-open PatchModel
-
-/-- printing a line number and reading it back -/
-theorem number_roundtrip (n : Nat) (hn : (n : Int) ≤ i64Max) (rest : Bytes) (cur : Int)
-    (hrest : ∀ c, rest.head? = some c → isDigit c = false) :
-    consumeLineNumber (intDigits (n : Int) ++ rest) cur = (true, (n : Int), rest) := by
-  sorry
-
-/-- the unified range line round trip -/
-theorem unified_range_roundtrip (h : Hunk) (h0 : Hunk)
-    (hos : 0 ≤ h.old.start) (hoc : 0 ≤ h.old.count) (hns : 0 ≤ h.new.start) (hnc : 0 ≤ h.new.count)
-    (hob : h.old.start ≤ i64Max) (hocb : h.old.count ≤ i64Max) (hnb : h.new.start ≤ i64Max) (hncb : h.new.count ≤ i64Max) :
-    parseUnifiedRange h0
-      (str "@@ -" ++ intDigits h.old.start ++ (if h.old.count ≠ 1 then [44] ++ intDigits h.old.count else [])
-        ++ str " +" ++ intDigits h.new.start ++ (if h.new.count ≠ 1 then [44] ++ intDigits h.new.count else [])
-        ++ str " @@")
-    = (true, { h0 with old := h.old, new := h.new }) := by
-  sorry
-
-/-- **unified round trip**: any list of writable hunks, written by `write_hunk_as_unified` and followed by anything that
-    is not itself a hunk, is read back by `parse_unified_patch` as the same hunks (LF/CRLF class forgotten), and the
-    stream is left exactly at what followed. -/
-theorem unified_roundtrip (hs : List Hunk) (hne : hs ≠ []) (hw : ∀ h ∈ hs, h.writable = true)
-    (tail : List Line) (ht : tailOkUnified tail = true) (lineNo : Nat) :
-    ∃ par', parseUnifiedBody { s := { rest := splitLines (hs.flatMap writeHunkUnified) ++ tail }, lineNo := lineNo }
-        = .ok (hs.map Hunk.normNl, par') ∧ par'.s.rest = tail := by
-  sorry
-
-/-- the reject writer's format choice: unified when asked for, or by default for unified and git input; context otherwise -/
-theorem reject_format_choice (fmt : RejectFormat) (pf : Format) :
-    rejectAsUnified fmt pf = true ↔
-      (fmt = .unified ∨ (fmt = .default ∧ (pf = .unified ∨ pf = .git))) := by
-  sorry
-
-/-- the reject bytes of a run are the header followed by the rejected hunks, in their original order, each written by the
-    formatter of the chosen format (context hunks separated by the stars line) -/
-theorem reject_bytes_layout (file : List Line) (p0 : Patch) (o : ApplyOpts) (tty : Option (List Bool)) (r : ApplyResult)
-    (hr : applyPatch file p0 o tty = .ok r) (hne : r.rejected ≠ []) :
-    (rejectAsUnified o.rejectFormat r.patch.format = true →
-      r.rejBytes = writeHeaderUnified r.patch ++ (r.rejected.map (·.2)).flatMap writeHunkUnified) ∧
-    (rejectAsUnified o.rejectFormat r.patch.format = false →
-      ∃ body, ctxRejectBody (r.rejected.map (·.2)) = .ok body ∧
-        r.rejBytes = str "*** " ++ r.patch.oldPath
-            ++ (if r.patch.oldTime ≠ [] ∧ r.patch.oldPath ≠ devNull then [TAB] ++ r.patch.oldTime else []) ++ [NL]
-          ++ str "--- " ++ r.patch.newPath
-            ++ (if r.patch.newTime ≠ [] ∧ r.patch.newPath ≠ devNull then [TAB] ++ r.patch.newTime else []) ++ [NL]
-          ++ starsLine ++ body) ∧
-    List.Pairwise (· < ·) (r.rejected.map (·.1)) := by
-  sorry
-
-end PatchModel.C13
+import PatchModel.Props.C13U
